@@ -185,6 +185,7 @@ TIERS = {
 }
 
 def gen_cases(tier, seed):
+    import itertools
     rng = random.Random(seed)
     cases = []
     for c in t12.repo_corpus(REPO):
@@ -237,6 +238,29 @@ def gen_cases(tier, seed):
                               [('initial', 'A'), ('states', [('leaf', 'A', None), ('leaf', 'B', ['u32'])]),
                                ('events', [('go', ev_items), ('back', [('transition', [('from', ['B'], False), ('to', 'A')])])], True)]})
                 kk += 1
+    # every identifier of length <= 4 over {a, r, B, R, 2, _} as the name of a data state, of an event and of a hook:
+    # whatever string the generator derives from a name (state strings, operation names, field names, variants)
+    # is compared for every leading / trailing character class
+    kk = 0
+    for n in range(1, 5):
+        for t in itertools.product('arBR2_', repeat=n):
+            w = ''.join(t)
+            if w[0].isdigit() or set(w) == {'_'}:
+                continue
+            step_ = 1 if tier == 'thorough' else 3
+            if kk % step_ == 0:
+                cases.append({'id': f'nm_s{kk}', 'stream': 'names', 'feature': (kk % 4 == 0), 'def':
+                              [('name', 'M'), ('dynamic', True), ('initial', 'Zz'), ('states', [('leaf', w, ['u32']), ('leaf', 'Zz', None)]),
+                               ('events', [('go', [('transition', [('from', ['Zz'], False), ('to', w)])]),
+                                           ('back', [('transition', [('from', [w], False), ('to', 'Zz')])])], True)]})
+                cases.append({'id': f'nm_e{kk}', 'stream': 'names', 'feature': False, 'def':
+                              [('name', 'M'), ('dynamic', True), ('initial', 'Aa'), ('states', [('leaf', 'Aa', None), ('leaf', 'Bb', ['u32'])]),
+                               ('events', [(w, [('guards', ['chk'], True), ('transition', [('from', ['Aa'], False), ('to', 'Bb')])])], True)]})
+                cases.append({'id': f'nm_h{kk}', 'stream': 'names', 'feature': False, 'def':
+                              [('name', 'M'), ('dynamic', True), ('initial', 'Aa'), ('states', [('leaf', 'Aa', None), ('leaf', 'Bb', None)]),
+                               ('events', [('go', [('guards', [w], True), ('around', [w + 'x'], True),
+                                                   ('transition', [('from', ['Aa'], False), ('to', 'Bb'), ('before', [w + 'y'], True)])])], True)]})
+            kk += 1
     # every short event name over {a, B, 2, _}: the snake_case rule (validation.rs) and the derived names
     import itertools
     kk = 0
